@@ -44,7 +44,7 @@ P = 'C09'
 BUDGETS = {'C09': (75, 1200, 40)}
 LEVELS = {'C09': 'exploration'}
 ALLOWED = (ServerError, ProtocolError, SSLVerificationError, NetworkError)
-PROBES = {'C09': ['layer.http', 'layer.web', 'layer.robots', 'layer.ftp', 'layer.crawl', 'crawl_ftp', 'continue_with_partial_files', 'long_line', 'raw_random', 'truncated', 'odd_location',
+PROBES = {'C09': ['layer.http', 'layer.web', 'layer.robots', 'layer.ftp', 'layer.crawl', 'crawl_ftp', 'ftp_symlinks', 'continue_with_partial_files', 'long_line', 'raw_random', 'truncated', 'odd_location',
                   'odd_cookie', 'cookie_flood', 'bad_compression', 'ftp_reply_mutated', 'ftp_listing_mutated', 'hostile_html', 'hostile_css', 'hostile_js',
                   'hostile_sitemap', 'hostile_robots', 'real_file_writer', 'per_url_error_seen', 'healthy_fetched_after_hostile', 'reset', 'stall']}
 INFO = {'C09': {
@@ -480,6 +480,7 @@ def layer_crawl(tape, r, tier):
         # an FTP origin next to the HTTP one: file URLs (the processor lists the parent directory first), directory URLs,
         # with the control or data connection failing / answering oddly at a drawn command
         ftp_urls = []
+        ftp_symlinks = False
         ftp_faults = {}
         ftp_tree = None
         if tape.chance(1, 3, 'crawl.ftp'):
@@ -500,6 +501,12 @@ def layer_crawl(tape, r, tier):
                 ftp_faults[at] = ('reply', FTP_BAD_REPLIES[tape.draw(len(FTP_BAD_REPLIES), 'crawl.ftp.reply')]) if kind == 'reply' else kind
             if tape.chance(1, 3, 'crawl.ftp.pasv_reuse'):
                 ftp_faults['pasv_reuse'] = True
+            if tape.chance(1, 4, 'crawl.ftp.symlinks'):
+                # symbolic links in the listings, the same name more than once; --retr-symlinks=off makes wpull create them locally
+                d0 = sorted(p for p, v in ftp_tree.items() if isinstance(v, list))[0]
+                ftp_tree[d0] += [('ln0', 'symlink'), ('ln0', 'symlink'), ('ln1', 'symlink')]
+                ftp_symlinks = True
+                r.probes['ftp_symlinks'] += 1
             r.probes['crawl_ftp'] += 1
         site.finalize()
         opts = {'robots': with_robots, 'recursive': True, 'level': 'inf', 'page_requisites': True, 'tries': 2}
@@ -507,6 +514,8 @@ def layer_crawl(tape, r, tier):
         if tape.chance(1, 2, 'sitemaps'):
             extra.append('--sitemaps')
         dbpath = os.path.join(sandbox, 'db.sqlite')
+        if ftp_symlinks:
+            extra = extra + ['--retr-symlinks=off']
         argv = crawl.argv_for(opts, [s.url for s in starts] + ftp_urls, dbpath, extra=extra)
         if tape.chance(1, 2, 'real_files'):
             argv.remove('--delete-after')          # default file writer: documents are saved under the sandbox (cwd)
@@ -530,7 +539,7 @@ def layer_crawl(tape, r, tier):
 
         def setup(h, server, net):
             if ftp_tree is not None:
-                ftpcrawl.FtpTreeServer(h, net, ftp_tree, mlsd=tape.chance(1, 2, 'crawl.ftp.mlsd'), faults=ftp_faults)
+                ftpcrawl.FtpTreeServer(h, net, ftp_tree, mlsd=tape.chance(1, 2, 'crawl.ftp.mlsd') and not ftp_symlinks, faults=ftp_faults)
             for res in hostile:
                 def beh(conn, entry, rs, res=res):
                     conn.send(res.wire)
